@@ -1622,8 +1622,6 @@ impl Runner {
             Ok(Some(())) => 0,
         };
         let now = self.w.now;
-        let inv_now = self.inv_count(idx).await;
-        self.inv_seen.insert(idx, inv_now);
         match self.w.trace.last_mut() {
             Some(last) if repeat_of && last.term == term && last.outcome == outcome && last.idx == idx && last.now == now && outcome != 3 => last.repeat += 1,
             _ => self.w.trace.push(MEv { now, idx, term, outcome, finding: String::new(), repeat: 1 }),
@@ -2000,6 +1998,12 @@ impl Runner {
                     if let Some(last) = self.w.trace.last_mut() {
                         last.term = format!("EFetched (FObserved {})", gal::n(after.saturating_sub(before)));
                     }
+                    self.inv_seen.insert(f.idx, after);
+                } else if kind.starts_with("EFetched") {
+                    // the model predicts +1 for a buffer that does not decode / does not match, if it got past the gate;
+                    // anything beyond that (a deferred verdict landing in the same pump) is reported separately
+                    let predicted = if let Ok(0) = r { 1 } else { 0 };
+                    self.inv_seen.insert(f.idx, before + predicted);
                 }
                 r?;
             }
@@ -2198,6 +2202,10 @@ async fn run_case(spec: &CaseSpec) -> CaseOut {
         if served_kind.starts_with("UnknownParent") && !spec.loading_completed {
             r.w.orphan_delivered = true;
         }
+        // after C05's orphan branch (a block with an unknown parent stored on a node with
+        // initial_loading_completed = false) the chain index no longer describes one chain: the digest of such a
+        // state is not a reference any more, only crash-freedom is judged from there on
+        let frame = frame && !r.w.orphan_delivered;
         let mut pre_err: Option<Stop> = None;
         let before = if frame {
             // honest work that is still under way (a chain sync from B spread over several fetch rounds) must
